@@ -66,7 +66,7 @@ def c03(tier):
 
 
 def c05(tier):
-    family = fam(['failing', 'fail_diamond', 'fail_memo']) + [p for p in programs.parallel_family() if p['name'] == 'par_fail']
+    family = fam(['failing', 'fail_diamond', 'fail_memo', 'nodir']) + [p for p in programs.parallel_family() if p['name'] == 'par_fail']
     v, cov, te, wall = syscheck.run_family(
         'C05', tier, family, ['FailPropagates', 'NoCleanOverFailed', 'NoDupRun', 'NoUnderBuild'], [],
         {'rc', 'ran', 'row.failed', 'row.gen', 'file'},
